@@ -24,6 +24,7 @@ RT = {
     '_iterator': 'obj', '_func_isgenfunc': 'bool', '_func_has_inval': 'bool',
     '_last_value': 'obj', '_clock': 'obj', '_state_lock': 'obj', 'func': 'obj',
     '__iter_is_none': 'bool', '__terminal_is_sentinel': 'bool',
+    '_rand_seed': 'obj', '_rgen': 'obj', '_thread_player': 'obj',
 }
 FIELDS = {'Routine': RT,
           'Main': dict(MAIN_FIELDS, current_tt='ref:TimeThread'),
@@ -127,7 +128,8 @@ def h_compare(eng, op, a, b, st, node):
 
 
 HOOKS = {'getattr': h_getattr, 'builtin': h_builtin, 'compare': h_compare}
-common = dict(fields=FIELDS, hooks=HOOKS, class_modules={'Routine': F}, native=False)
+common = dict(fields=FIELDS, hooks=HOOKS, class_modules={'Routine': F}, native=False,
+              opts={'opaque_ext': ('random.Random',)})
 
 
 def st_of(v):
@@ -241,11 +243,16 @@ def guard(new_state, from_states=None):
 
 
 RUNNING = lambda c: c.pre.self.state == STATES['Running']
+FRAMES = {'pause': ['state'], 'stop': ['state', '_iterator', '_last_value', '_clock'],
+          'reset': ['state', '_iterator', '_clock']}
 for meth, post in (('pause', guard(STATES['Paused'], [STATES['Init'], STATES['Suspended']])),
                    ('stop', guard(STATES['Done'])),
                    ('reset', guard(STATES['Init']))):
-    contract(F, 'Routine.' + meth, props=('C11',),
+    contract(F, 'Routine.' + meth, props=('C11', 'C10'),
              params={'self': 'self'},
+             # frame: nothing else of the routine changes — in particular not its
+             # random generator or seed (C10: the stream depends only on the seed)
+             modifies=[('self', f) for f in FRAMES[meth]],
              requires=lambda c: z3.And(c.pre.self.state >= 1, c.pre.self.state <= 5),
              raises={'RoutineException': RUNNING},
              ensures=[('transition', post)],
